@@ -142,7 +142,12 @@ def line_text(rnd, name, ops):
     sep = rnd.choice([' ', ', ', ',', '  '])
     t = name
     for i, op in enumerate(ops):
-        t += (' ' if i == 0 else sep) + op_txt(rnd, op)
+        if name in SHI and i == 2 and rnd.random() < 0.35:
+            # the shift amount travels in a register field but is documented as an integer: every integer spelling
+            txt = rnd.choice([hex(op[1]), bin(op[1]), '0o%o' % op[1], '0X%X' % op[1]])
+        else:
+            txt = op_txt(rnd, op)
+        t += (' ' if i == 0 else sep) + txt
     return '    ' + t
 
 
@@ -212,6 +217,7 @@ def gen_program(rnd, size=None, pseudo=True, data=True, aligns=True, transfers=T
                 rd = creg(rnd)
                 v = rnd.choice([0, 1, -1, 31, 32, -32, -33, 2047, 2048, -2048, -2049, 0x7fffffff, 0x80000000, 0xffffffff,
                                 0xfffff800, 0x12345678, 4096, 0x1000 * rnd.randrange(1, 64), rnd.randrange(-2 ** 31, 2 ** 32),
+                                0x1000 * rnd.randrange(1, 32) + rnd.choice([1, 5, 16, 31, -1, -32]), 0x40021000 + rnd.choice([0, 4, 31]),
                                 rnd.randrange(-4096, 4096)])
                 body.append(Ln('    li %s, %s' % (reg_txt(rnd, rd), v if rnd.random() < 0.5 else (hex(v) if v >= 0 else str(v))),
                                'li', 'li', [rd], extra=v))
@@ -276,6 +282,24 @@ def gen_program(rnd, size=None, pseudo=True, data=True, aligns=True, transfers=T
                     name = rnd.choice(SHI)
                     body.append(Ln('    %s %s, %s, %s' % (name, reg_txt(rnd, a), reg_txt(rnd, a), nm), 'instr', name,
                                    [('r', a), ('r', a), ('r', v)]))
+                elif pseudo and rnd.random() < 0.4:
+                    # the alias as an operand of a pseudo-instruction (resolved again after the expansion)
+                    j = rnd.randrange(4)
+                    if j == 0:
+                        val = rnd.choice([0, 5, -32, 31, 2047, 2048, 0x12345678])
+                        body.append(Ln('    li %s, %d' % (nm, val), 'li', 'li', [v], extra=val))
+                    elif j == 1:
+                        un = rnd.choice(UN)
+                        b2 = creg(rnd)
+                        body.append(Ln('    %s %s, %s' % (un, nm, reg_txt(rnd, b2)), 'unary', un, [v, b2]) if rnd.random() < 0.5 else
+                                    Ln('    %s %s, %s' % (un, reg_txt(rnd, b2), nm), 'unary', un, [b2, v]))
+                    elif j == 2 and transfers:
+                        pb = rnd.choice(PBR1)
+                        lab = rnd.choice(labels)
+                        body.append(Ln('    %s %s, %s' % (pb, nm, lab), 'pbranch1', pb, [v], lab))
+                    else:
+                        pj = rnd.choice(['jr', 'jalr'])
+                        body.append(Ln('    %s %s' % (pj, nm), 'pjr', pj, [v]))
                 else:
                     name, ops = gen_instr(rnd)
                     if ops and ops[0][0] == 'r':
@@ -296,6 +320,18 @@ def gen_program(rnd, size=None, pseudo=True, data=True, aligns=True, transfers=T
             else:
                 a = creg(rnd)
                 body.append(Ln('    li %s, %s' % (reg_txt(rnd, a), nm), 'li', 'li', [a], extra=v))
+    if consts and rnd.random() < 0.15:
+        # one name that is BOTH a constant and a label (never a branch target): constants win wherever a value is needed
+        val = rnd.choice([400, 8, -32, 31, 2047, 16, 100, -100, 400, 2047])
+        a = creg(rnd)
+        body.insert(0, Ln('SHARED = %d' % val, 'const', 'SHARED', extra=val))
+        consts_defined.append(('SHARED', val))
+        body.insert(rnd.randrange(1, len(body) + 1), Ln('    addi %s, %s, SHARED' % (reg_txt(rnd, a), reg_txt(rnd, a)), 'instr', 'addi',
+                                                        [('r', a), ('r', a), ('i', val)]))
+        # the label mostly sits near the start (a small address) so that label value and constant value fall on
+        # different sides of the compressed operand ranges
+        body.insert(rnd.randrange(1, min(len(body), 6) + 1) if rnd.random() < 0.7 else rnd.randrange(1, len(body) + 1),
+                    Ln('SHARED:', 'label', 'SHARED'))
     # sprinkle the labels
     if far_anchor:
         for _ in range(rnd.randrange(1, 3)):
